@@ -1,5 +1,5 @@
 (* C09 — property theorems over the protocol model Conc/RpcSync.v, which follows
-   /repo after the repairs 86fb806, 4b9897e, ca3c269, 8ad26fe, e5ad5bb (and the
+   /repo after the repairs 86fb806, 4b9897e, ca3c269, 8ad26fe, e5ad5bb, aabeecb (and the
    machine-tick repairs 50f5531, b365688, 6a5055c through the probed switches).
    Nothing but statements closed by [exact]. Theorems quantify over all
    configurations, snapshots, histories and event lists; refutations give a
@@ -310,22 +310,32 @@ Theorem hello_machtick_unrepaired_refuted :
 Proof. exact C09Proofs.hello_machtick_refuted_lemma. Qed.
 Print Assumptions hello_machtick_unrepaired_refuted.
 
-(* per-mutation sync after a reconnect: RemoteHello re-memorises lastPushData
-   but keeps the tracer's dataQueue (mutations recorded before the Hello): the
-   next chain starts below lastPushData, the negative deltas wrap to 2^32 /
-   2^16 and the mod-256 checksum accepts them *)
-Theorem hello_keeps_queue_refuted :
-  exists (p : pcfg) (s0 a b c : snap),
-    p_mut p = true /\ shallow (p_codec p) = false /\
-    cfg_wf (p_codec p) (length (s_time s0)) = true /\
-    chain_in_range s0 [a; b; c] = true /\ s_m s0 = 0 /\
-    let st := exec p (init p s0) [Src a; Src b; Hello; Src c; Push; Settle] in
-    quiescent st = true /\ st_err st = false /\ st_rejpush st = false /\
-    activity_ok (p_codec p) (s_time c) (cl_t (st_cl st)) = true /\
-    ticks_ok (p_codec p) (s_time c) (cl_t (st_cl st)) = false /\
-    cl_t (st_cl st) = [1; 1 + 4294967296; 1; 0] /\ cl_q (st_cl st) = 4 + 65536.
-Proof. exact C09Proofs.hello_keeps_queue_refuted_lemma. Qed.
-Print Assumptions hello_keeps_queue_refuted.
+(* aabeecb: a (re-)Hello starts the session from the handshake clock, for every
+   state of the protocol: the tracer's dataQueue is empty, lastPushData and the
+   mirror are the source as it is now, nothing is in flight. (Before:
+   hello_keeps_queue_refuted - the mutations recorded before the Hello were
+   replayed below lastPushData and wrapped to 2^32 / 2^16.) *)
+Theorem hello_restarts :
+  forall (p : pcfg) (s : st),
+    st_err s = false -> cl_stuck (st_cl s) = false ->
+    let s' := step p s Hello in
+    let x := st_cur s in
+    sv_queue (st_sv s') = [] /\
+    client_view s' = (mirror (p_codec p) x, s_q x, if p_hello_m p then s_m x else 0) /\
+    d_mtime (sv_last (st_sv s')) = Some (mirror (p_codec p) x) /\
+    d_q (sv_last (st_sv s')) = s_q x /\ d_m (sv_last (st_sv s')) = s_m x /\
+    st_wire s' = [] /\ st_pend s' = None /\ cl_need (st_cl s') = false /\ st_err s' = false.
+Proof. exact C09Proofs.hello_restarts_lemma. Qed.
+Print Assumptions hello_restarts.
+
+Theorem mutations_reconnect_example :
+  let p := C09Proofs.mutp in
+  let st := exec p (init p C09Proofs.r1_s0)
+              [Src C09Proofs.r3_a; Src C09Proofs.r3_b; Hello; Src C09Proofs.r5_c; Push; Settle] in
+  client_view st = ([1; 1; 1; 0], 4, 0) /\ st_rejpush st = false /\
+  quiescent st = true /\ st_err st = false.
+Proof. exact C09Proofs.mutations_reconnect_example. Qed.
+Print Assumptions mutations_reconnect_example.
 
 (* shallow clocks after a Sync(): RemoteSync did not update lastPushData, so the
    reply of the next mutation is a diff against the older belief; the shallow
